@@ -148,6 +148,12 @@ def apply_op(o, op):
         elif k == 'tele':
             o.obj_space_telecentric = bool(op[1])
             o.fields.set_telecentric(bool(op[1]))
+        elif k == 'rm':
+            # edits of the surface list itself: the neighbours keep the media they were built with
+            o.surface_group.remove_surface(op[1])
+        elif k == 'ins':
+            o.add_surface(index=op[1], radius=op[2], thickness=op[3],
+                          material=lensgen.make_material({'kind': 'ideal', 'n': op[4]}))
         else:
             return c01.apply_op(o, op)
     except Exception as e:  # noqa
@@ -207,6 +213,14 @@ def gen_ops(rng, desc, nmax=8):
         else:
             vs = [(rng.choice(['radius', 'thickness', 'conic']), rng.choice(plain)) for _ in range(rng.randint(1, 2))]
             ops.append(('opt', vs, 3, dyadic(rng, 30, 120, 2)))
+    if n >= 4 and rng.random() < 0.15:
+        # the surface list itself is edited (remove_surface / add_surface in the middle of the list)
+        if rng.random() < 0.5:
+            e = ('rm', rng.randint(1, n - 2))
+        else:
+            e = ('ins', rng.randint(1, n - 2), dyadic(rng, 15, 300, 3) * rng.choice([1, -1]), dyadic(rng, 0.5, 8, 4),
+                 dyadic(rng, 1.3, 2.0, 8))
+        ops.insert(rng.randint(0, len(ops)), e)
     return ops
 
 
@@ -804,6 +818,8 @@ def cmp_tree(ctx, what, impl, model, case):
 def edit_tokens(o, op):
     """tokens of the model edits that correspond to one harness op, taken from the lens state *before* the op"""
     k = op[0]
+    if k in ('rm', 'ins'):
+        raise ValueError('edit of the surface list: outside the model')
     if k in ('sr', 'sc', 'st', 'si', 'tx', 'ty', 'ddx', 'ddy'):
         return [[k, fhex(op[1]), str(op[2])]]
     if k == 'pk':
